@@ -33,6 +33,7 @@
 #include <yaclib/coro/task.hpp>
 #include <yaclib/coro/yield.hpp>
 #include <yaclib/exe/executor.hpp>
+#include <yaclib/lazy/schedule.hpp>
 #include <yaclib/lazy/task.hpp>
 
 #include <deque>
@@ -86,6 +87,8 @@ struct CellSpec {
   char kind;          // u: Promise/Future contract   s: SharedPromise/SharedFuture contract
                       // U: Future returned by a coroutine   S: SharedFuture returned by a coroutine
                       // t: Task coroutine (lazy, completes inline)   T: Task coroutine that moves to executor 1 first
+                      // k: Schedule(e1, f)   K: Schedule(e1, f).ThenInline(g)   (Tasks headed by a Run core: legal to await
+                      //    since /repo 4f7ebfc)   — every Task carries the instance-counted value type Cnt
   std::string res;    // val:N | err | exc
   std::string when;   // pre (fulfilled before the coroutines start) | fib (own producer fiber)
   bool sub = false;   // a plain subscriber (SubscribeInline) is registered on the SharedFuture first
@@ -142,6 +145,20 @@ struct Scenario {
 // ---- run-time state of one execution -----------------------------------------------------------------------------------
 struct Exec;
 
+// instance-counted payload of the Tasks: every Result<Cnt> that is constructed must be destroyed exactly once
+struct Cnt {
+  static inline int ctors = 0, dtors = 0;
+  int v = 0;
+  explicit Cnt(int x) : v{x} { ++ctors; }
+  Cnt(const Cnt& o) : v{o.v} { ++ctors; }
+  Cnt(Cnt&& o) noexcept : v{o.v} { ++ctors; }
+  Cnt& operator=(const Cnt&) = default;
+  Cnt& operator=(Cnt&&) noexcept = default;
+  ~Cnt() { ++dtors; }
+};
+inline int AsInt(int x) { return x; }
+inline int AsInt(const Cnt& x) { return x.v; }
+
 struct CoState {
   BaseCore* core = nullptr;
   std::string resumer;       // name the fiber had before this coroutine took it over
@@ -158,7 +175,7 @@ struct Env {
   const Scenario* sc = nullptr;
   std::vector<yaclib::Future<int>> fut;
   std::vector<yaclib::SharedFuture<int>> sf;
-  std::vector<yaclib::Task<int>> task;
+  std::vector<yaclib::Task<Cnt>> task;
   std::vector<yaclib::Promise<int>> prom;
   std::vector<yaclib::SharedPromise<int>> sprom;
   std::vector<yaclib::Promise<>> gate;
@@ -427,16 +444,18 @@ struct W {
     if constexpr (std::is_void_v<Rt>) {
       emit("-");
       inner.await_resume();
-    } else if constexpr (std::is_same_v<std::remove_cv_t<std::remove_reference_t<Rt>>, int>) {
+    } else if constexpr (std::is_same_v<std::remove_cv_t<std::remove_reference_t<Rt>>, int> ||
+                         std::is_same_v<std::remove_cv_t<std::remove_reference_t<Rt>>, Cnt>) {
+      using Vt = std::remove_cv_t<std::remove_reference_t<Rt>>;
       if (!done) {
         // await_resume would read a Result that was never constructed (undefined behaviour): report, do not execute
         emit("unset");
-        return int{-1};
+        return Vt{-1};
       }
       const std::string want = G->sc->cells[op.cells[0]].res;
       try {
-        int v = inner.await_resume();
-        std::string got = "val:" + std::to_string(v);
+        Vt v = inner.await_resume();
+        std::string got = "val:" + std::to_string(AsInt(v));
         if (got != want) G->Bad(me + " co_await #" + std::to_string(k) + " returned " + got + " instead of " + want);
         emit(got);
         return v;
@@ -513,8 +532,22 @@ R Body(FrameGuard fg, int cid) {
           if (isS(a)) AW(yaclib::AwaitOn(E(op.e), S[a]));
           else AW(yaclib::AwaitOn(E(op.e), F[a]));
         } else if (op.kind == "task") {
-          if (op.get) (void)AW(yaclib::operator co_await(std::move(G->task[a])));
-          else AW(yaclib::Await(G->task[a]));
+          if (op.get) {
+            (void)AW(yaclib::operator co_await(std::move(G->task[a])));
+          } else {
+            AW(yaclib::Await(G->task[a]));
+            // the Task completed and is still valid: destroying it must just release it (no write to its word, the Result
+            // destroyed exactly once: D13, /repo 2690a63)
+            const std::size_t before = vx::gCtx->trace.size();
+            if (!(G->task[a].Valid() && G->task[a].Ready())) G->Bad(Cn(cid) + " after Await(task) the Task is not valid and ready");
+            G->task[a] = yaclib::Task<Cnt>{};
+            for (std::size_t i = before; i < vx::gCtx->trace.size(); ++i) {
+              const std::string& l = vx::gCtx->trace[i];
+              if (l.find(" A w" + std::to_string(a) + " ") != std::string::npos && l.find(" load ") == std::string::npos)
+                G->Bad(Cn(cid) + " ~Task of a completed Task wrote its state word: " + l);
+            }
+            vx::Ev("tdtor " + std::to_string(a));
+          }
         } else if (op.kind == "resched") {
           if (op.e >= 0) AW(yaclib::On(E(op.e)));
           else if (op.kyield) AW(yaclib::kYield);
@@ -606,7 +639,7 @@ yaclib::SharedFuture<int> ProdS(int j, yaclib::Future<> gate) {
   co_return ValOf(res);
 }
 
-yaclib::Task<int> ProdT(int j, bool move) {
+yaclib::Task<Cnt> ProdT(int j, bool move) {
   const std::string pn = "p" + std::to_string(j);
   vx::gCtx->NameSelf(pn);
   if (move) {
@@ -616,7 +649,19 @@ yaclib::Task<int> ProdT(int j, bool move) {
   const std::string& res = G->sc->cells[static_cast<std::size_t>(j)].res;
   if (res == "exc") throw std::runtime_error{"prod"};
   if (res == "err") co_return yaclib::StopTag{};
-  co_return ValOf(res);
+  co_return Cnt{ValOf(res)};
+}
+
+// Tasks headed by a Run core (Schedule): the function runs on a worker of executor 1 and names the fiber after the cell
+yaclib::Task<Cnt> ProdK(int j, bool then) {
+  auto f = [j] {
+    vx::gCtx->NameSelf("p" + std::to_string(j));
+    const std::string& res = G->sc->cells[static_cast<std::size_t>(j)].res;
+    if (res == "exc") throw std::runtime_error{"prod"};
+    return Cnt{ValOf(res)};
+  };
+  if (then) return yaclib::Schedule(*G->execs[0], f).ThenInline([](Cnt&& c) { return std::move(c); });
+  return yaclib::Schedule(*G->execs[0], f);
 }
 
 void Fulfil(int j) {
@@ -646,6 +691,7 @@ void RunScenario(const Scenario& sc) {
   G = &env;
   env.sc = &sc;
   quarantine::active = true;
+  Cnt::ctors = Cnt::dtors = 0;
   auto& ctx = *vx::gCtx;
   ctx.NameValWord(0, "empty");
   ctx.NameValWord(~0ULL, "result");
@@ -686,7 +732,8 @@ void RunScenario(const Scenario& sc) {
       env.sf[j] = ProdS(static_cast<int>(j), std::move(g));
       env.core[j] = env.sf[j].GetCore().Get();
     } else {
-      env.task[j] = ProdT(static_cast<int>(j), cs.kind == 'T');
+      env.task[j] = (cs.kind == 'k' || cs.kind == 'K') ? ProdK(static_cast<int>(j), cs.kind == 'K')
+                                                       : ProdT(static_cast<int>(j), cs.kind == 'T');
       env.core[j] = env.task[j].GetCore().Get();
     }
     ctx.NameObj(&Peek::Word(*env.core[j]), "w" + std::to_string(j));
@@ -724,7 +771,7 @@ void RunScenario(const Scenario& sc) {
     });
   }
   for (std::size_t j = 0; j < nc; ++j) {
-    if (sc.cells[j].when == "fib" && sc.cells[j].kind != 't' && sc.cells[j].kind != 'T') {
+    if (sc.cells[j].when == "fib" && std::string("tTkK").find(sc.cells[j].kind) == std::string::npos) {
       threads.emplace_back("p" + std::to_string(j), [j] { Fulfil(static_cast<int>(j)); });
     }
   }
@@ -739,6 +786,8 @@ void RunScenario(const Scenario& sc) {
   env.task.clear();
   env.prom.clear();
   env.sprom.clear();
+  if (Cnt::ctors != Cnt::dtors)
+    env.Bad("Task results: " + std::to_string(Cnt::ctors) + " constructed, " + std::to_string(Cnt::dtors) + " destroyed");
   quarantine::active = false;
   gLastDone = true;
 }
@@ -898,6 +947,14 @@ std::vector<Scenario> AllScenarios(bool thorough) {
   add({Cell('t', "err")}, {}, {Co({Op("task", {0}, -1, true)})});
   add({Cell('t', "exc")}, {}, {Co({Op("task", {0}, -1, false)})});
   add({Cell('T', "val:9")}, {"run"}, {Co({Op("task", {0}, -1, true), Op("current", {})})});
+  add({Cell('t', "val:9")}, {}, {Co({Op("task", {0}, -1, false)}, "task")});
+  add({Cell('T', "val:9")}, {"run"}, {Co({Op("task", {0}, -1, false), Op("current", {})})});
+  // -- Tasks headed by Schedule() (D10, /repo 4f7ebfc), awaited and — if only Await()ed — destroyed afterwards (D13)
+  add({Cell('k', "val:9")}, {"run"}, {Co({Op("task", {0}, -1, true), Op("current", {})})});
+  add({Cell('k', "val:9")}, {"run"}, {Co({Op("task", {0}, -1, false)})});
+  add({Cell('K', "val:9")}, {"run"}, {Co({Op("task", {0}, -1, false), Op("current", {})})});
+  add({Cell('K', "exc")}, {"run"}, {Co({Op("task", {0}, -1, true)}, "future", "val:7", true)});
+  add({Cell('K', "val:9")}, {"run"}, {Co({Op("resched", {}, 1), Op("task", {0}, -1, false)}, "shared")});
   // -- D12: coroutines resumed by one SharedFuture exchange executors through the shared core
   add({Cell('s', "val:2")}, {"run", "run"},
       {Co({Op("resched", {}, 1), Op("single", {0}), Op("current", {})}), Co({Op("resched", {}, 2), Op("single", {0}), Op("current", {})})});
